@@ -26,6 +26,8 @@ first_missed = {
  'C08-d': 'equality predicates were only checked between gates; obligation equality.operations_qubit_order (operations on every pair of qubit orders, ==, approx_eq, equal_up_to_global_phase) added afterwards',
  'C09-c': 'multi-qubit Kraus channels and re-use of one channel object were not exercised; obligation dm_simulate.kraus2_reuse added afterwards (the aliasing shows in the CONCRETE validation points: the numpy proxies copy)',
  'C18-d': 'Sampler.sample (pandas frame) was outside the first version; obligations sampler.sample_frame / sample_inconsistent_keys (symbolic parameter values and records, 16 params shapes with differently ordered keys) added afterwards',
+ 'C11-d': 'LinearDict JSON was compared with tolerance 1e-9 (equal to the default atol of LinearDict.clean, which hid the loss); exact json.lin.* obligations with symbolic coefficients over a box containing every small magnitude added afterwards',
+ 'C05-d': 'no operation in the first menu carried both a measurement key and a control key; keys2.* obligations (CircuitOperations with both kinds of keys, every strategy, symbolic positions, key-conflict base circuits) added afterwards',
  'C19-b': 'the concrete KAK fall-back menu only had gates with interaction (x,0,0); matrix-only gates with generic coefficients added afterwards',
 }
 still = {
